@@ -18,7 +18,7 @@
 EXTENDS Integers, Sequences, FiniteSets, TLC, Json
 
 CONSTANTS Subs, Objs, Bcasters, MaxOps, MaxEv,
-          AllowStop, AllowRespawn, SendTargets, SendSenders, SendPayloads,
+          AllowStop, AllowRespawn, AllowRevive, SendTargets, SendSenders, SendPayloads,
           KeyByValue, DropDead, Export
 
 VARIABLES inbox,    \* the stream's inbox
@@ -86,6 +86,15 @@ StopRespawn(p) ==
   /\ Op([op |-> "respawn", p |-> p, o |-> 1, b |-> "-", target |-> "-", sender |-> "-", id |-> 0])
   /\ UNCHANGED <<subs, alive, got, want, asub, nev, nmsg, gen>>
 
+(* a subscriber that stopped earlier is spawned again under its id and the new actor subscribes (events broadcast
+   while nobody ran under the id are not owed to anybody) *)
+ReviveSub(p) ==
+  /\ CanOp /\ AllowRevive /\ ~alive[p]
+  /\ alive' = [alive EXCEPT ![p] = TRUE]
+  /\ inbox' = Append(inbox, [t |-> "sub", p |-> p, o |-> 1, e |-> UserEv("-", 0)])
+  /\ Op([op |-> "revive", p |-> p, o |-> 1, b |-> "-", target |-> "-", sender |-> "-", id |-> 0])
+  /\ UNCHANGED <<subs, got, want, asub, nev, nmsg, gen>>
+
 (* Engine.Send / SendWithSender to something that cannot be delivered.  Sender "req": the message goes out through
    Engine.Request (the sender is the request's response PID).  Payload "nil": the message value is the untyped nil
    (it carries no id: 0) *)
@@ -135,6 +144,7 @@ Next == \/ \E p \in Subs, o \in Objs : Subscribe(p, o) \/ Unsubscribe(p, o)
         \/ \E b \in Bcasters : Broadcast(b)
         \/ \E p \in Subs : StopSub(p)
         \/ \E p \in Subs : StopRespawn(p)
+        \/ \E p \in Subs : ReviveSub(p)
         \/ \E t \in SendTargets, s \in SendSenders, pl \in SendPayloads : SendUndeliverable(t, s, pl)
         \/ Process
 
